@@ -110,6 +110,8 @@ def run(ctx: RuleContext, p: Program) -> None:
     from . import round4
     ctx.try_rule(round4.rule_mixin_batch, p, 'MIXIN-BATCH')
     ctx.try_rule(round4.rule_id_cmp, p, 'ID-CMP')
+    from . import c10
+    ctx.try_rule(c10.rule_drop_refuse, p, 'DROP-REFUSE')
     st = it.stats
     ctx.stats['effect_interpreter'] = {
         'entries': n, 'mutating_entries': mutating, 'skipped_same_signature_in_quick': ents.get('_skipped_same_signature', 0),
